@@ -118,6 +118,28 @@ theorem scan_new_bounds (l : List UInt8) (i : Nat) (acc : List Nat) :
     · exact Or.inl h
     · right; omega
 
+/-- a successful scan stops behind its start -/
+theorem scan_found_lt (l : List UInt8) (i : Nat) (acc : List Nat) (h : (scan l i acc).1 = true) :
+    i < (scan l i acc).2.1 := by
+  fun_induction scan l i acc with
+  | case1 i acc => simp at h
+  | case2 i acc => simp at h
+  | case3 b i acc hb => simp at h
+  | case4 rest i acc => simp
+  | case5 c rest i acc hc ih => have := ih h; omega
+  | case6 b c rest i acc hb ih => have := ih h; omega
+
+/-- an unsuccessful scan stops at the end, or on a final LF -/
+theorem scan_notfound_sp (l : List UInt8) (i : Nat) (acc : List Nat) (h : (scan l i acc).1 = false) :
+    i + l.length ≤ (scan l i acc).2.1 + 1 := by
+  fun_induction scan l i acc with
+  | case1 i acc => simp
+  | case2 i acc => simp
+  | case3 b i acc hb => simp
+  | case4 rest i acc => simp at h
+  | case5 c rest i acc hc ih => have := ih h; simp only [List.length_cons] at this ⊢; omega
+  | case6 b c rest i acc hb ih => have := ih h; simp only [List.length_cons] at this ⊢; omega
+
 /-! ### line steps of `scan` -/
 
 theorem scan_noLF (a : List UInt8) (h : LF ∉ a) (i : Nat) (acc : List Nat) :
